@@ -22,7 +22,7 @@ RULE = sqlmon.RULE_HISTORIES + ' Cancellation of arbitrary groups in any order (
 ASSUMPTIONS = sqlmon.COMMON_ASSUMPTIONS
 SHARDS = {'quick': 4, 'thorough': 16}
 TIMEOUT = {'quick': 900, 'thorough': 3600}
-FLOORS = {'scripted_additions_after_cancel_attempted': 100, 'scripted_addition_outcomes': 4, 'cancels_applied': 100, 'repeated_cancels_checked': 10, 'is_job_cancelled_probes': 2000, 'submissions_after_cancel_checked': 20,
+FLOORS = {'scripted_scheduling_passes_after_cancel': 40, 'scripted_additions_after_cancel_attempted': 100, 'scripted_addition_outcomes': 4, 'cancels_applied': 100, 'repeated_cancels_checked': 10, 'is_job_cancelled_probes': 2000, 'submissions_after_cancel_checked': 20,
           'jobs_under_two_cancelled_groups_probed': 1}
 
 SUBMIT_OPS = ('submit_job_bunch', 'submit_group_bunch', 'create_update', 'resend')
@@ -155,7 +155,74 @@ def _monitors(p):
     return [e, c]
 
 
+async def scripted_start_after_cancel(runner, w, fz, rng):
+    """directed prefix for the clause "its jobs never start afterwards": a job is on its way to a worker (Ready and picked by the
+    scheduler, or Creating on a job-private VM that has been requested for it) when its group, an ancestor group or the batch is
+    cancelled; the VM then comes up and the driver's scheduling pass runs BEFORE the canceller's sweeps.  The edge monitor
+    (after-every-commit) flags the job entering Running."""
+    from batch.front_end.validate import validate_and_clean_jobs, validate_job_groups
+    from vf.world.oracles import View
+    from vf.world.world import userdata
+
+    ctx = runner.ctx
+    user = 'alice'
+    ud = userdata(user)
+    fe = w.fe
+    jp = rng.random() < 0.6
+    res = {'machine_type': 'n1-standard-1', 'preemptible': True, 'storage': '1Gi'} if jp else {'cpu': '1', 'memory': 'standard', 'storage': '1Gi'}
+    bid = await fe._create_batch({'billing_project': 'bp-a', 'token': 'c07t', 'n_jobs': 2, 'n_job_groups': 2}, ud, w.db)
+    fz.batches[bid] = {'user': user, 'token': 'c07t', 'groups': {0, 1, 2}, 'cancelled': set(), 'deleted': False}
+    u1, _, _ = await fe._create_batch_update(bid, 'c07t', 2, 2, user, w.db)
+    gs = [{'job_group_id': 1, 'absolute_parent_id': 0}, {'job_group_id': 2, 'in_update_parent_id': 1}]
+    validate_job_groups(gs)
+    await fe._create_job_groups(w.db, bid, u1, user, gs)
+    js = [{'job_id': 1, 'in_update_job_group_id': 2, 'process': {'type': 'docker', 'command': ['true'], 'image': 'u'}, 'resources': dict(res)},
+          {'job_id': 2, 'in_update_job_group_id': 2, 'always_run': True, 'process': {'type': 'docker', 'command': ['true'], 'image': 'u'}, 'resources': dict(res)}]
+    validate_and_clean_jobs(js)
+    await fe._create_jobs(ud, js, bid, u1, w.fe_app)
+    await fe._commit_update(w.fe_app, bid, u1, user, w.db)
+    saved = {k: fz.cfg[k] for k in ('worker_reject_p', 'fault_schedule_db_p')}
+    fz.cfg.update({k: 0 for k in saved})
+    fz.fail_next_schedule_db = False
+    target = rng.choice([0, 1, 2])
+    if jp:
+        await w.jpim.create_instances_loop_body()
+        await fz._drain()
+        st = View(w.engine).jobs[(bid, 1)]['state']
+        await fe._cancel_job_group(w.fe_app, bid, target)
+        fz.batches[bid]['cancelled'].add(target)
+        for i in sorted(w.jpim.name_instance.values(), key=lambda i: i.name):
+            w.instances.setdefault(i.name, i)
+            if i.state == 'pending':
+                await i.activate('10.9.0.%d' % (1 + len(w.instances)), w.now_ms())
+        await w.jpim.schedule_jobs_loop_body()
+    else:
+        await w.create_instance('standard', cores=16)
+        st = View(w.engine).jobs[(bid, 1)]['state']
+        await fe._cancel_job_group(w.fe_app, bid, target)
+        fz.batches[bid]['cancelled'].add(target)
+        await w.pools['standard'].scheduler.schedule_loop_body()
+    await fz._drain()
+    fz.cfg.update(saved)
+    fz.sync_attempts_from_db()
+    v = View(w.engine)
+    j1, j2 = v.jobs[(bid, 1)], v.jobs[(bid, 2)]
+    ctx.count('scripted_scheduling_passes_after_cancel')
+    ctx.seen('scripted_job_state_when_cancelled', ('job-private:' if jp else 'pool:') + st)
+    ctx.seen('scripted_states_after_the_pass', f'{"job-private" if jp else "pool"}: cancelled job {j1["state"]}, always-run job {j2["state"]}')
+    if j1['state'] == 'Running':  # (also seen by the edge monitor at the commit that made it so)
+        runner.violation('cancelled-job-started/entered-running', f'scripted: job {(bid, 1)} was {st} when group {target} was cancelled and is Running after the next scheduling pass', {'job': [bid, 1], 'target': target})
+    if j2['state'] not in ('Running', 'Success', 'Failed', 'Error'):
+        runner.violation('always-run-job-not-run-after-cancel', f'scripted: always-run job {(bid, 2)} is {j2["state"]} after group {target} was cancelled and a scheduling pass with capacity for it', {'job': [bid, 2], 'target': target})
+
+
 async def scripted(runner, w, fz, rng):
+    if runner.ctx.case_index[1] % 2:
+        return await scripted_start_after_cancel(runner, w, fz, rng)
+    return await scripted_additions(runner, w, fz, rng)
+
+
+async def scripted_additions(runner, w, fz, rng):
     """directed prefix for the clause "new jobs and sub-groups cannot be added beneath it": an update is uploaded in several
     requests and a cancellation lands in between.  Everything sent after the cancel beneath the cancelled group - job bunch,
     sub-group named by its absolute parent, sub-group named by its in-update parent, a further update - must be refused."""
@@ -228,7 +295,7 @@ def run(ctx):
 
     p = Patterns()
     r = HistoryRunner(ctx, [p] + _monitors(p), cfg={'weights': dict(sqlmon.WEIGHTS_RUN)}, n_ops=ctx.pick(10, 20), setup=scripted)
-    for i, rng in ctx.cases(ctx.pick(15, 100), 'scripted'):
+    for i, rng in ctx.cases(ctx.pick(30, 200), 'scripted'):
         res = r.run_case(i, rng)
         ops = res.get('ops', [])
         ctx.case(sample={'scripted-prefix+ops': ops[:30]}, key=('scripted', i, tuple(ops)), nontrivial=True)
